@@ -113,6 +113,10 @@ CellRaw(c) == Cat(CellRuns(c))
 \*                                "nokey" map[string]interface{} without that field
 \*                                "smap"  map[string]string,  "str"  a plain string   (not maps for the engine)
 \* Loops only expand over items that are map[string]interface{}; a field the item lacks stays as written.
+\* Only the "map" kind is documented: what the other kinds render to is the reference machine's choice (it needs one to be
+\* a function) and is NOT demanded of the library - the judge demands of them only what C17 states: the same result every
+\* time and for every thread, nothing modified (Documented, Engine_Trace).
+Documented(d) == d.ik = "map"
 ItemsAreMaps(d) == d.ik \in {"map", "nokey"}
 NameOf(d, j) == IF d.ik = "map" THEN d.items[j] ELSE "{{name}}"       \* what {{name}} shows for item j
 ListLen(d, l) == IF l = "items" THEN Len(d.items) ELSE 0               \* every other list is not in the data
